@@ -1204,3 +1204,93 @@ VARIANTS += [
     V('C03-M36', 'M', ('C03',), ST, 'Stream.peek', r"\n\s+elif isinstance\(exc_types, list\):\n\s+exc_types = tuple\(exc_types\)", "", ('C03-10',), note='D25 shape'),
     V('C03-E34', 'E', ALL, ST, 'Stream.filter_exceptions', r"if isinstance\(drop_exc_types, list\):\n(\s+)drop_exc_types = tuple\(drop_exc_types\)", r"if drop_exc_types is not None and not isinstance(drop_exc_types, type):\n\1drop_exc_types = tuple(drop_exc_types)", note='another guard for the same normalisation'),
 ]
+
+
+# ---------------------------------------------------------------------- conjunctions split into nested ifs and nested ifs merged
+def _split_ands(m):
+    import ast as _ast
+
+    src = m.group(0)
+    tree = _ast.parse(src)
+    k = [0]
+    for fn in [x for x in _ast.walk(tree) if isinstance(x, (_ast.FunctionDef, _ast.AsyncFunctionDef))]:
+        for n in _ast.walk(fn):
+            if isinstance(n, _ast.If) and not n.orelse and isinstance(n.test, _ast.BoolOp) and isinstance(n.test.op, _ast.And) and len(n.test.values) == 2 and not any(isinstance(x, _ast.NamedExpr) for x in _ast.walk(n.test)):
+                a, b = n.test.values
+                inner = _ast.If(test=b, body=n.body, orelse=[])
+                n.test, n.body = a, [inner]
+                k[0] += 1
+    return (_ast.unparse(_ast.fix_missing_locations(tree)) + '\n') if k[0] else src
+
+
+def _merge_ifs(m):
+    import ast as _ast
+
+    src = m.group(0)
+    tree = _ast.parse(src)
+    k = [0]
+    for fn in [x for x in _ast.walk(tree) if isinstance(x, (_ast.FunctionDef, _ast.AsyncFunctionDef))]:
+        for n in _ast.walk(fn):
+            if isinstance(n, _ast.If) and not n.orelse and len(n.body) == 1 and isinstance(n.body[0], _ast.If) and not n.body[0].orelse:
+                inner = n.body[0]
+                n.test = _ast.BoolOp(op=_ast.And(), values=[n.test, inner.test])
+                n.body = inner.body
+                k[0] += 1
+    return (_ast.unparse(_ast.fix_missing_locations(tree)) + '\n') if k[0] else src
+
+
+for _i, _m in enumerate(_MODS + [FU]):
+    VARIANTS.append(V(f'G-spl-{_i:02d}', 'E', ALL, _m, None, r'\A.*\Z', _split_ands, flags=re.S, note='`if a and b:` (no else) split into nested ifs'))
+    VARIANTS.append(V(f'G-mrg-{_i:02d}', 'E', ALL, _m, None, r'\A.*\Z', _merge_ifs, flags=re.S, note='nested ifs without else merged into `if a and b:`'))
+
+
+# ---------------------------------------------------------------------- attributes of self bound to locals at the top of a method (only attributes the class assigns nowhere but in its set-up methods)
+def _localise_attrs(m):
+    import ast as _ast
+
+    src = m.group(0)
+    tree = _ast.parse(src)
+    k = [0]
+    SETUP = {'__init__', 'start', '_start', '_reset', '__setstate__', '__enter__', '__aenter__', '_enter_server'}
+    for cls in [x for x in _ast.walk(tree) if isinstance(x, _ast.ClassDef)]:
+        stored_outside = set()
+        for meth in cls.body:
+            if isinstance(meth, (_ast.FunctionDef, _ast.AsyncFunctionDef)) and meth.name not in SETUP:
+                for x in _ast.walk(meth):
+                    if isinstance(x, _ast.Attribute) and isinstance(x.value, _ast.Name) and x.value.id == 'self' and isinstance(x.ctx, (_ast.Store, _ast.Del)):
+                        stored_outside.add(x.attr)
+        for meth in cls.body:
+            if not isinstance(meth, (_ast.FunctionDef, _ast.AsyncFunctionDef)) or meth.name in SETUP or not meth.args.args or meth.args.args[0].arg != 'self':
+                continue
+            if any(isinstance(d, _ast.Name) and d.id in ('staticmethod', 'classmethod', 'property') for d in meth.decorator_list):
+                continue
+            loads = {}
+            called = set()
+            for x in _ast.walk(meth):
+                if isinstance(x, _ast.Call) and isinstance(x.func, _ast.Attribute) and isinstance(x.func.value, _ast.Name) and x.func.value.id == 'self':
+                    called.add(x.func.attr)
+                if isinstance(x, _ast.Attribute) and isinstance(x.value, _ast.Name) and x.value.id == 'self' and isinstance(x.ctx, _ast.Load):
+                    loads[x.attr] = loads.get(x.attr, 0) + 1
+            names_used = {x.id for x in _ast.walk(meth) if isinstance(x, _ast.Name)} | {a.arg for a in meth.args.args + meth.args.kwonlyargs}
+            cands = [a for a, c in loads.items() if c >= 2 and a not in stored_outside and a not in called and a.startswith('_') and (a.strip('_') + '_loc') not in names_used]
+            if not cands:
+                continue
+            mapping = {a: a.strip('_') + '_loc' for a in cands}
+
+            class T(_ast.NodeTransformer):
+                def visit_Attribute(self, n):
+                    self.generic_visit(n)
+                    if isinstance(n.value, _ast.Name) and n.value.id == 'self' and isinstance(n.ctx, _ast.Load) and n.attr in mapping:
+                        return _ast.copy_location(_ast.Name(id=mapping[n.attr], ctx=_ast.Load()), n)
+                    return n
+
+            new_body = [T().visit(st) for st in meth.body]
+            i = 1 if new_body and isinstance(new_body[0], _ast.Expr) and isinstance(new_body[0].value, _ast.Constant) and isinstance(new_body[0].value.value, str) else 0
+            binds = [_ast.Assign(targets=[_ast.Name(id=v, ctx=_ast.Store())], value=_ast.Attribute(value=_ast.Name(id='self', ctx=_ast.Load()), attr=a, ctx=_ast.Load())) for a, v in sorted(mapping.items())]
+            meth.body = new_body[:i] + binds + new_body[i:]
+            k[0] += len(binds)
+    return (_ast.unparse(_ast.fix_missing_locations(tree)) + '\n') if k[0] else src
+
+
+for _i, _m in enumerate(_MODS + [FU]):
+    VARIANTS.append(V(f'G-loc-{_i:02d}', 'E', ALL, _m, None, r'\A.*\Z', _localise_attrs, flags=re.S, note='attributes of self that only set-up methods assign are bound to locals at the top of each method that reads them twice'))
